@@ -35,6 +35,8 @@ int main() {
     std::istringstream in(line);
     std::string op; in >> op;
     try {
+      if ((op[0] == 'g' && op != "gnew" && !g) || (op[0] == 'p' && op != "pvnew" && op != "pvsize" && !pv) ||
+          (op[0] == 's' && op != "svnew" && !sv)) { puts("no-table"); continue; }
       if (op == "hash") {                       // probe pass
         std::string hw; in >> hw; std::string w = Unhex(hw);
         // GrowableVocab hashes with MurmurHashNative, Index() and the other vocabularies with HashForVocab: same function
